@@ -104,6 +104,28 @@ CHECKS["C02"] = {
     "explanation": "E3/E4 obligations + structural rules",
 }
 
+CHECKS["C08"] = {
+    "module": "rules_c08",
+    "level": "proof",
+    "quick_fs": ["default", "no_copy_impls"],
+    "thorough_fs": ["default", "checks", "no_copy_impls", "both"],
+    "technique": "abstract interpretation of MIR with ghost accounting over the six copy bodies x word sizes x feature sets; impl inventory per feature set",
+    "claim": "For BufBitReader::copy_to (u8..u64), BufBitWriter::copy_from (u8..u128) and the two chunked defaults, with and without no_copy_impls: (P1) every internal call respects the <= 64 bits-per-transfer contract of read_bits/write_bits, all asserts/panics are discharged and the buffer-counter invariants are re-established; (P3) on every successful path the source advances by exactly n and the destination receives exactly n bits, so specialised and generic versions have the same declared effect; (P4) the feature removes exactly the four overrides. Undecided: order/values of the copied bits; reader buffer cleanliness after a copy is the bit-range clause (P2).",
+    "note": "Trusted: rustc MIR, exporter, contracts, ghost model, LP entailment.",
+    "explanation": "E3/E4 obligations over copy implementations",
+}
+
+CHECKS["C12"] = {
+    "module": "rules_c12",
+    "level": "proof",
+    "quick_fs": ["default"],
+    "thorough_fs": ["default", "checks", "no_copy_impls", "both"],
+    "technique": "abstract interpretation of MIR with slice-length contracts (chunks_exact, try_into, copy_from_slice, range indexing) per word size; structural byte-order pairing",
+    "claim": "For the io::Write impls of BufBitWriter (u8..u128) and the io::Read impls of BufBitReader (u8..u64) and BitReader: (B1) every chunk handed to <[u8; 8]>::try_from(..).unwrap() provably has 8 bytes, the remainder is narrower than 64 bits, copy_from_slice operands have equal lengths, range indices are in bounds, read_bits/write_bits widths <= 64, invariants re-established - i.e. no word size follows a panicking or truncating path; (B2) BE impls use be byte conversions, LE impls le ones, LE remainder assembled in reverse; (B3) success returns Ok(buf.len()); (B4) failures surface as io::Error. Undecided: byte values.",
+    "note": "Trusted: std contracts in sa/contracts.py, rustc MIR, exporter, LP entailment.",
+    "explanation": "E3 obligations + structural rules over six bodies",
+}
+
 NOT_APPLICABLE = {
     "C17": "a bijection over all values of six integer widths is a statement about (x>>1)^-(x&1) on 2^n values: the generic body is a chain of operator-trait calls with no table, pairing, ordering or ownership structure to check; proving the identity needs bit-vector reasoning (a solver) or running it, both outside static analysis (DESIGN.md section 6)",
 }
